@@ -151,14 +151,23 @@ class Formatter(FormatterInterface):
         # Return combined string
         return f"{lhs} {oper.op} {rhs}"
 
-    @__call__.register(L.Neg)
-    @__call__.register(L.Not)
-    def _(self, oper: L.Not | L.Neg) -> str:
-        """Format a unary operation."""
+    @__call__.register
+    def _(self, oper: L.Neg) -> str:
+        """Format a unary minus."""
         arg = self(oper.arg)
         if oper.arg.precedence >= oper.precedence:
             return f"{oper.op}({arg})"
         return f"{oper.op}{arg}"
+
+    @__call__.register
+    def _(self, oper: L.Not) -> str:
+        """Format a logical negation.
+
+        Python spells it "not" and gives it a lower precedence than the
+        comparison operators, so both operand and result are parenthesised.
+        """
+        arg = self(oper.arg)
+        return f"(not ({arg}))"
 
     @__call__.register(L.And)
     @__call__.register(L.Or)
